@@ -296,7 +296,7 @@ func lcWorkers() map[uint64]bool {
 	n := runtime.Stack(buf, true)
 	out := map[uint64]bool{}
 	for _, g := range strings.Split(string(buf[:n]), "\n\n") {
-		if strings.Contains(g, "dastard.CoreLoop") || strings.Contains(g, "StartRun") ||
+		if strings.Contains(g, "dastard.CoreLoop") || strings.Contains(g, "Source).StartRun") ||
 			strings.Contains(g, "readerMainLoop") || strings.Contains(g, "AbacoUDPReceiver") ||
 			strings.Contains(g, "(*AbacoSource)") || strings.Contains(g, "(*AnySource).Stop") {
 			var id uint64
@@ -460,6 +460,13 @@ func c10Gen(r *Rng, tier string, idx int) (string, func() string) {
 		return "src udp opens 1 sched udpFail", func() string { return lcUDPFail(idx, false) }
 	case idx == 1:
 		return "src udp opens 1 sched udpBusy", func() string { return lcUDPFail(idx, true) }
+	case c < 9:
+		nfail := r.Pick(1, 1, 2)
+		req := b2i(r.Chance(50))
+		k := r.Range(1, 2)
+		first := b2i(r.Chance(40))
+		return fmt.Sprintf("src loop opens 0 sched startRunFail nfail %d req %d k %d first %d", nfail, req, k, first),
+			func() string { return lcStartRunFail(idx, nfail, req == 1, k, first == 1) }
 	case c < 25:
 		k := r.Range(1, 4)
 		rounds := r.Range(1, 3)
@@ -683,6 +690,62 @@ func lcReuse(kind string, idx int) string {
 	return h.finish(true)
 }
 
+// obsFailed records, after a failed Start, what the real object says about its completion barrier: state,
+// whether runDone.Wait() returns (counter 0) and the run-done channel (0 nil, 1 open, 2 closed).
+func (h *lcH) obsFailed() {
+	o, ok := h.ds.(interface {
+		VerifRunDoneState(time.Duration) (bool, int)
+	})
+	if !ok {
+		return
+	}
+	idle, done := o.VerifRunDoneState(150 * time.Millisecond)
+	dastard.VerifNote(fmt.Sprintf("obs.failed.%d.%d.%d", int(h.ds.GetState()), 1-b2i(idle), done))
+}
+
+// lcStartRunFail: StartRun fails (after RunDoneActivate) nfail times, then a Start succeeds on the same object,
+// optionally a request is served, then k Stops.  With first: a complete start/stop round comes before.
+func lcStartRunFail(idx, nfail int, withReq bool, k int, first bool) string {
+	h := lcNew("loop", idx)
+	dastard.VerifPointsOn()
+	if first {
+		s := h.spawnStart()
+		s.wait(3 * time.Second)
+		h.flagOn()
+		h.feedBlocks(1, false)
+		h.feedWG.Wait()
+		h.spawnStop().wait(3 * time.Second)
+		h.sc.VerifRefresh()
+		dastard.VerifNote("flag.refresh")
+	}
+	h.loop.VerifFailStartRun(nfail)
+	for i := 0; i < nfail; i++ {
+		s := h.spawnStart()
+		s.wait(3 * time.Second)
+		h.obsFailed()
+	}
+	s := h.spawnStart()
+	if s.wait(3*time.Second) && s.ret == 0 {
+		h.flagOn()
+		h.feedBlocks(1, false)
+		h.feedWG.Wait()
+		if withReq {
+			b := false
+			var reply bool
+			h.nR++
+			h.spawn(fmt.Sprintf("R%d", h.nR), func() error { return h.sc.CoupleErrToFB(&b, &reply) }).wait(3 * time.Second)
+		}
+		var ks []*lcCall
+		for i := 0; i < k; i++ {
+			ks = append(ks, h.spawnStopNoSettle())
+		}
+		for _, c := range ks {
+			c.wait(3 * time.Second)
+		}
+	}
+	return h.finish(true)
+}
+
 // lcSelfW: the scripted source ends by itself (error block) while writing is active; then Stop is called.
 func lcSelfW(idx, when int) string {
 	h := lcNew("loop", idx)
@@ -725,6 +788,7 @@ func lcUDPFail(idx int, busy bool) string {
 	dastard.VerifPointsOn()
 	s1 := h.spawnStart()
 	s1.wait(8 * time.Second)
+	h.obsFailed()
 	if h.resHeld() == 1 {
 		dastard.VerifNote("note.portStillBound")
 	}
